@@ -30,7 +30,12 @@ func stripZeros(b []byte) []byte {
 	return b[i:]
 }
 
-func BigBytes(z *big.Int) []byte { return clone(stripZeros(bigMag[z])) }
+func BigBytes(z *big.Int) []byte {
+	if bigOpaque[z] {
+		return clone(bigMag[z])
+	}
+	return clone(stripZeros(bigMag[z]))
+}
 
 // FillBytes writes the magnitude right-aligned into buf; panics (as the real one) if it does not fit.
 func BigFillBytes(z *big.Int, buf []byte) []byte {
@@ -66,6 +71,9 @@ func BigSign(z *big.Int) int {
 }
 
 func BigBitLen(z *big.Int) int {
+	if bigOpaque[z] {
+		return 8 * len(bigMag[z])
+	}
 	m := stripZeros(bigMag[z])
 	if len(m) == 0 {
 		return 0
